@@ -86,13 +86,13 @@ def find_witness(kind, prop, repo, depth, seed):
 
 
 KANI_BOUNDS = {
-    'dense_step_small': 'DenseVecStorage<u16>: every well-formed state with <= 2 elements over indices < 3; one insert or remove; then every slot re-read and the dense invariant re-checked',
-    'dense_step': 'DenseVecStorage<u16>: every well-formed state with <= 3 elements over indices < 4; one arbitrary raw operation (insert/remove/get_mut/get); whole-view re-read + dense invariant + dense slice is a permutation',
-    'dense_clean': 'DenseVecStorage<u16>: every well-formed state with <= 3 elements over indices < 4; clean() empties all three tables',
-    'vec_step_small': 'VecStorage<u16>: every vector of length <= 2 with any occupied subset; one insert or remove over indices < 3 (may grow the vector); every slot re-read; then clean(true mask)',
-    'default_vec_step_small': 'DefaultVecStorage<u16>: every vector of length <= 2 whose unoccupied slots hold Default; one insert or remove over indices < 3; occupied = value, unoccupied = Default; then clean()',
-    'vec_step': 'VecStorage<u16>: every vector of length <= 4 with any occupied subset; one arbitrary raw operation; slice view agrees at occupied indices; then clean()',
-    'default_vec_step': 'DefaultVecStorage<u16>: every vector of length <= 4 whose unoccupied slots hold Default; one arbitrary raw operation; occupied = value, unoccupied = Default; then clean()',
+    'kdense_small': 'DenseVecStorage<u16>: every well-formed state with <= 2 elements over indices < 3; one insert or remove; then every slot re-read and the dense invariant re-checked',
+    'kdense_step': 'DenseVecStorage<u16>: every well-formed state with <= 3 elements over indices < 4; one arbitrary raw operation (insert/remove/get_mut/get); whole-view re-read + dense invariant + dense slice is a permutation',
+    'kdense_clean': 'DenseVecStorage<u16>: every well-formed state with <= 3 elements over indices < 4; clean() empties all three tables',
+    'kvec_small': 'VecStorage<u16>: every vector of length <= 2 with any occupied subset; one insert or remove over indices < 3 (may grow the vector); every slot re-read; then clean(true mask)',
+    'kdefault_small': 'DefaultVecStorage<u16>: every vector of length <= 2 whose unoccupied slots hold Default; one insert or remove over indices < 3; occupied = value, unoccupied = Default; then clean()',
+    'kvec_step': 'VecStorage<u16>: every vector of length <= 4 with any occupied subset; one arbitrary raw operation; slice view agrees at occupied indices; then clean()',
+    'kdefault_step': 'DefaultVecStorage<u16>: every vector of length <= 4 whose unoccupied slots hold Default; one arbitrary raw operation; occupied = value, unoccupied = Default; then clean()',
     'own_vec': 'VecStorage<Tok> destructor ledger: <= 2 symbolic inserts over indices < 3, one arbitrary operation (insert/remove/drop/overwrite), clean(true mask), drop: each token dropped xor handed back exactly once',
     'own_dense': 'DenseVecStorage<Tok> destructor ledger: same scenario as own_vec',
     'own_null': 'NullStorage<Z> (zero-sized, counting destructor): 3 arbitrary operations over indices < 3, clean(true mask): destructor runs + handed back == inserted',
